@@ -44,8 +44,14 @@ class KD:
         for a in self.p:
             hits = []
             for j, b in enumerate(other.p):
-                d2 = z3.Sum([(_r(x) - _r(y)) * (_r(x) - _r(y)) for x, y in zip(a, b)])
-                if cur().decide(And(d2 <= re * re)):
+                if len(a) == 1:
+                    # one spatial dimension: |a - b| <= r is linear arithmetic
+                    d = _r(a[0]) - _r(b[0])
+                    near = And(d <= re, -d <= re)
+                else:
+                    d2 = z3.Sum([(_r(x) - _r(y)) * (_r(x) - _r(y)) for x, y in zip(a, b)])
+                    near = d2 <= re * re
+                if cur().decide(And(near)):
                     hits.append(j)
             out.append(hits)
         return out
@@ -153,8 +159,13 @@ def _points(ctx, cfg):
             if i == j:
                 es.append(z3.BoolVal(not G.has_edge(i, j)))
                 continue
-            d2 = z3.Sum([(c[i, 1 + d] - c[j, 1 + d]) * (c[i, 1 + d] - c[j, 1 + d]) for d in range(D)])
-            es.append(z3.BoolVal(G.has_edge(i, j)) == And(c[j, 0] == c[i, 0] + 1, d2 <= r * r))
+            if D == 1:
+                dd = c[i, 1] - c[j, 1]
+                near = And(dd <= r, -dd <= r)
+            else:
+                d2 = z3.Sum([(c[i, 1 + d] - c[j, 1 + d]) * (c[i, 1 + d] - c[j, 1 + d]) for d in range(D)])
+                near = d2 <= r * r
+            es.append(z3.BoolVal(G.has_edge(i, j)) == And(c[j, 0] == c[i, 0] + 1, near))
     ctx.oblige("C18.edges_iff_consecutive_and_near", And(es), "C18")
     ts = [c[i, 0] for i in range(M)]
     ctx.witness("frame_gap", And([Or([ts[i] == 0 for i in range(M)]), Or([ts[i] == 2 for i in range(M)]),
